@@ -160,7 +160,11 @@ Inductive call : Type :=
 | CDeleteConfig (tgt : dsarg)
 | CCopyConfig (tgt : dsarg) (src : srcarg)
 | CValidate (src : srcarg)
-| CCommit (v : vendor) (confirmed : bool) (pre post : option exn)
+| CCommit (v : vendor) (confirmed tmo per pid : bool) (pre post : option exn)
+    (* commit(confirmed, timeout, persist, persist_id, …): [confirmed] = truth value of the argument, [tmo] = `timeout is not
+       None`, [per] = `persist is not None`, [pid] = truth value of persist_id (the tests request() branches on; the Junos
+       override has no persist / persist_id parameter);  [pre] / [post] = the local failure the arguments cause before /
+       after the capability check, if any *)
 | CCancelCommit (body : option exn)
 | CDiscardChanges
 | CCreateSubscription (body : option exn)
@@ -202,7 +206,7 @@ Definition enum_steps (v : option bytes) (allowed : list bytes) (then_ : bytes -
 Definition class_deps (c : call) : list bytes :=
   match c with
   | CValidate _ => [s_k_validate]
-  | CCommit _ _ _ _ => [s_k_candidate]
+  | CCommit _ _ _ _ _ _ _ => [s_k_candidate]
   | CCancelCommit _ => [s_k_candidate; s_k_confirmed]
   | CDiscardChanges => [s_k_candidate]
   | CCreateSubscription _ => [s_k_notification]
@@ -210,6 +214,14 @@ Definition class_deps (c : call) : list bytes :=
   | CReboot => [s_k_reboot]
   | _ => []
   end.
+
+(* Commit.request: `if confirmed: self._assert(":confirmed-commit")` in front of the <confirmed/> block and (edit.py,
+   sros/rpc.py) `if persist_id: if not confirmed: self._assert(":confirmed-commit")` in front of <persist-id> — one test,
+   and every local failure of the two blocks comes after it;  juniper/rpc.py has no persist / persist_id parameter *)
+Definition has_per (v : vendor) (per : bool) : bool := match v with VJunos => false | _ => per end.
+Definition has_pid (v : vendor) (pid : bool) : bool := match v with VJunos => false | _ => pid end.
+Definition commit_checks (v : vendor) (confirmed pid : bool) : list step :=
+  if confirmed || has_pid v pid then [SAssert s_k_confirmed] else [].
 
 (* the body of request() up to the with-defaults branch, in source order *)
 Definition body_steps (c : call) : list step :=
@@ -230,8 +242,8 @@ Definition body_steps (c : call) : list step :=
   | CDeleteConfig tgt => ds_steps tgt
   | CCopyConfig tgt src => ds_steps tgt ++ src_steps src
   | CValidate src => src_steps src
-  | CCommit _ confirmed pre post =>
-      fail_opt pre ++ (if confirmed then [SAssert s_k_confirmed] else []) ++ fail_opt post
+  | CCommit v confirmed _ _ pid pre post =>
+      fail_opt pre ++ commit_checks v confirmed pid ++ fail_opt post
   | CCancelCommit body => fail_opt body
   | CDiscardChanges => []
   | CCreateSubscription body => fail_opt body
@@ -258,4 +270,69 @@ Definition perform (s : sess) (c : call) : list event * outcome :=
       | (tr', Some e) => (tr ++ tr', Exn e)
       | (tr', None) => (tr ++ tr' ++ [EvSend], Sent)
       end
+  end.
+
+(* ---------------- what a sent request carries ---------------- *)
+(* the capability-dependent constructs request() puts into the element it hands to _request — the same branches of
+   the same functions as [body_steps], read for their `sub_ele` / `new_ele` calls instead of their `_assert` calls *)
+Inductive wire : Type :=
+| WCommit            (* <commit> / junos <commit-configuration> *)
+| WConfirmed         (* <confirmed/> *)
+| WConfirmTimeout    (* <confirm-timeout> *)
+| WPersist           (* <persist> *)
+| WPersistId         (* <persist-id> inside <commit> *)
+| WCancelCommit      (* <cancel-commit> *)
+| WDiscardChanges    (* <discard-changes> *)
+| WValidate          (* <validate> *)
+| WTestOption        (* <test-option> *)
+| WTestOnly          (* <test-option>test-only *)
+| WRollbackOnError   (* <error-option>rollback-on-error *)
+| WUrl               (* <url> under <source>/<target>, or under <edit-config> *)
+| WWithDefaults      (* <with-defaults> *)
+| WCreateSubscription.
+
+(* util.datastore_or_url: `sub_ele(node, "url")` when "://" in loc *)
+Definition ds_wire (d : dsarg) : list wire :=
+  match d with
+  | DsStr loc _ => if contains loc s_css then [WUrl] else []
+  | DsBad _ => []
+  end.
+Definition ods_wire (o : option dsarg) : list wire := match o with None => [] | Some d => ds_wire d end.
+Definition src_wire (s : srcarg) : list wire := match s with SrcDs d => ds_wire d | SrcInline _ => [] end.
+
+(* Commit.request: `if confirmed:` <confirmed/>, `if timeout is not None:` <confirm-timeout>, `if persist is not None:`
+   <persist> (all three inside `if confirmed:`); `if persist_id:` <persist-id> *)
+Definition commit_wire (v : vendor) (confirmed tmo per pid : bool) : list wire :=
+  (if confirmed
+   then WConfirmed :: (if tmo then [WConfirmTimeout] else []) ++ (if has_per v per then [WPersist] else [])
+   else [])
+  ++ (if has_pid v pid then [WPersistId] else []).
+
+Definition wire_of (c : call) : list wire :=
+  match c with
+  | CGet _ wd => match wd with None => [] | Some _ => [WWithDefaults] end
+  | CGetConfig src _ wd => ds_wire src ++ match wd with None => [] | Some _ => [WWithDefaults] end
+  | CEditConfig tgt _ top eop fmt _ _ =>
+      ds_wire tgt
+      ++ match top with
+         | None => []
+         | Some t => WTestOption :: (if beq t s_test_only then [WTestOnly] else [])
+         end
+      ++ match eop with
+         | None => []
+         | Some e => if beq e s_rollback_on_error then [WRollbackOnError] else []
+         end
+      ++ (if beq fmt s_f_url then [WUrl] else [])
+  | CDeleteConfig tgt => ds_wire tgt
+  | CCopyConfig tgt src => ds_wire tgt ++ src_wire src
+  | CValidate src => WValidate :: src_wire src
+  | CCommit v confirmed tmo per pid _ _ => WCommit :: commit_wire v confirmed tmo per pid
+  | CCancelCommit _ => [WCancelCommit]
+  | CDiscardChanges => [WDiscardChanges]
+  | CCreateSubscription _ => [WCreateSubscription]
+  | CPoweroff => []
+  | CReboot => []
+  | CDispatch _ src _ => ods_wire src
+  | CRpc _ tgt src _ _ => ods_wire tgt ++ ods_wire src
+  | CUngated _ => []
   end.
